@@ -47,8 +47,14 @@ vars == <<svars, start, done, pend>>
 \* object numbers of the starting documents
 Cat == 1  Root == 2  PgA == 3  C1 == 4  C2 == 5  CArr == 6  Font == 7  ResObj == 8  Annot == 9
 Mid == 10 PgB == 11  CB == 12  PgC == 13 CC == 14  Info == 15  Img == 16  Mask == 17
+Mid2 == 18  CntR == 19  CntM == 20
+
+\* get_or_create_resources gives up InheritBound levels above the page (128 in lopdf): the model world is scaled
+MCInheritBound == 3
 
 \* tree: "A" root->[A] | "AB" root->[A,B] | "AmB" root->[A, mid->[B]] | "mABC" root->[mid->[A,B], C]
+\*       | "AmBi" as AmB with both Counts behind references | "deepA" root->[mid->[mid2->[A]]] (the root is
+\*       MCInheritBound levels above page A)
 \* cont: "ref" | "arr1" | "arr2" | "dup" | "refarr" | "missing"        (page A; other pages: "ref")
 \*       | "shared" (pages A and B name the SAME content stream) | "undec" (A's stream does not decode)
 \* res:  "none" | "root" | "rootref" | "rootcat" (inline on the root, its XObject category behind a reference)
@@ -64,9 +70,10 @@ St(tree, cont, res, ann, img, bm) == [tree |-> tree, cont |-> cont, res |-> res,
 FontRes(nm) == DictO([Font |-> DictO((nm :> Ref(Font)))])
 
 StartDoc(s) ==
-    LET hasB == s.tree # "A"
+    LET hasB == s.tree \notin {"A", "deepA"}
         hasC == s.tree = "mABC"
-        hasMid == s.tree \in {"AmB", "mABC"}
+        hasMid == s.tree \in {"AmB", "mABC", "AmBi", "deepA"}
+        icnt == s.tree = "AmBi"
         ids == {Cat, Root, PgA, Info}
                \cup (IF s.cont # "missing" THEN {C1} ELSE {})
                \cup (IF s.cont = "arr2" THEN {C2} ELSE {})
@@ -75,10 +82,13 @@ StartDoc(s) ==
                \cup (IF s.res \in {"rootref", "pageref", "rootcat", "shared", "pagegs"} THEN {ResObj} ELSE {})
                \cup (IF s.ann > 0 THEN {Annot} ELSE {})
                \cup (IF hasMid THEN {Mid} ELSE {})
+               \cup (IF s.tree = "deepA" THEN {Mid2} ELSE {})
+               \cup (IF icnt THEN {CntR, CntM} ELSE {})
                \cup (IF hasB THEN {PgB} \cup (IF s.cont = "shared" THEN {} ELSE {CB}) ELSE {})
                \cup (IF hasC THEN {PgC, CC} ELSE {})
                \cup (IF s.img THEN {Img, Mask} ELSE {})
-        parentOf(p) == IF s.tree = "AmB" /\ p = PgB THEN Mid
+        parentOf(p) == IF s.tree \in {"AmB", "AmBi"} /\ p = PgB THEN Mid
+                       ELSE IF s.tree = "deepA" THEN Mid2
                        ELSE IF s.tree = "mABC" /\ p \in {PgA, PgB} THEN Mid ELSE Root
         rootRes == CASE s.res \in {"root", "both"} -> ("Resources" :> FontRes("F1"))
                      [] s.res = "rootref" -> ("Resources" :> Ref(ResObj))
@@ -103,16 +113,22 @@ StartDoc(s) ==
         annA == IF s.ann = 0 THEN <<>> ELSE ("Annots" :> ArrO([i \in 1..s.ann |-> Ref(Annot)]))
         page(p, extra) == DictO(extra @@ [Type |-> NameO("Page"), Parent |-> Ref(parentOf(p))])
         pagesNode(kids, cnt, extra) ==
-            DictO(extra @@ [Type |-> NameO("Pages"), Kids |-> ArrO([i \in 1..Len(kids) |-> Ref(kids[i])]), Count |-> IntO(cnt)])
+            DictO(extra @@ [Type |-> NameO("Pages"), Kids |-> ArrO([i \in 1..Len(kids) |-> Ref(kids[i])]),
+                            Count |-> IF icnt THEN Ref(CntR) ELSE IntO(cnt)])
         rootKids == CASE s.tree = "A" -> <<PgA>> [] s.tree = "AB" -> <<PgA, PgB>>
-                      [] s.tree = "AmB" -> <<PgA, Mid>> [] OTHER -> <<Mid, PgC>>
-        midKids == IF s.tree = "AmB" THEN <<PgB>> ELSE <<PgA, PgB>>
-        nPages == CASE s.tree = "A" -> 1 [] s.tree = "mABC" -> 3 [] OTHER -> 2
+                      [] s.tree \in {"AmB", "AmBi"} -> <<PgA, Mid>> [] s.tree = "deepA" -> <<Mid>> [] OTHER -> <<Mid, PgC>>
+        midKids == CASE s.tree \in {"AmB", "AmBi"} -> <<PgB>> [] s.tree = "deepA" -> <<Mid2>> [] OTHER -> <<PgA, PgB>>
+        midCount == IF s.tree = "deepA" THEN 1 ELSE Len(midKids)
+        nPages == CASE s.tree \in {"A", "deepA"} -> 1 [] s.tree = "mABC" -> 3 [] OTHER -> 2
         obj(id) ==
             CASE id = Cat   -> DictO((IF s.img THEN ("Img" :> Ref(Img)) ELSE <<>>) @@ [Type |-> NameO("Catalog"), Pages |-> Ref(Root)])
               [] id = Root  -> pagesNode(rootKids, nPages, rootRes)
               [] id = Mid   -> DictO([Type |-> NameO("Pages"), Parent |-> Ref(Root),
-                                      Kids |-> ArrO([i \in 1..Len(midKids) |-> Ref(midKids[i])]), Count |-> IntO(Len(midKids))])
+                                      Kids |-> ArrO([i \in 1..Len(midKids) |-> Ref(midKids[i])]),
+                                      Count |-> IF icnt THEN Ref(CntM) ELSE IntO(midCount)])
+              [] id = Mid2  -> DictO([Type |-> NameO("Pages"), Parent |-> Ref(Mid), Kids |-> ArrO(<<Ref(PgA)>>), Count |-> IntO(1)])
+              [] id = CntR  -> IntO(nPages)
+              [] id = CntM  -> IntO(midCount)
               [] id = PgA   -> page(PgA, pageRes @@ contA @@ annA)
               [] id = PgB   -> page(PgB, pageResB @@ ("Contents" :> Ref(IF s.cont = "shared" THEN C1 ELSE CB)))
               [] id = PgC   -> page(PgC, ("Contents" :> Ref(CC)))
@@ -167,6 +183,10 @@ StartsIns      == {St("AB", c, "rootx", 0, FALSE, 0) : c \in {"ref", "arr2", "re
                   \cup {St("AB", "ref", "pagex", 0, FALSE, 0)}
 StartsIns2     == {St("AB", c, r, 0, FALSE, 0) : c \in {"ref", "arr1", "arr2", "dup", "refarr", "missing", "shared", "undec"},
                                                  r \in {"none", "rootref", "rootcat", "rootx", "pagex", "shared", "both"}}
+\* the audit shapes: the Resources holder MCInheritBound levels above the page; indirect Counts; a bookmark on a
+\* page that gets deleted; (ids above max_id come from the Replace candidates)
+StartsAudit    == {St("deepA", "ref", "root", 0, FALSE, 0), St("deepA", "ref", "rootref", 0, FALSE, 0),
+                   St("AmBi", "ref", "rootref", 0, FALSE, 1), St("AB", "ref", "root", 0, FALSE, 1)}
 StartsObj1     == {St("AB", "dup", "rootref", 2, TRUE, 1)}
 StartsObj      == {St("AB", "dup", "rootref", 2, TRUE, 1), St("A", "arr2", "none", 1, FALSE, 1)}
 
@@ -188,6 +208,8 @@ MCNewObjs(d) ==
 OpsContent == {"AddPageContents", "ChangePageContent", "ChangeContentStream", "DeleteObject", "DeletePages", "Compress", "Decompress"}
 OpsRes     == {"GetOrCreateResources", "AddXObject", "AddGraphicsState", "DeleteObject", "DeletePages", "Prune"}
 OpsIns     == {"AddToPageContent", "InsertImage", "InsertFormObject", "ChangePageContent"}
+OpsAudit   == {"GetOrCreateResources", "AddXObject", "AddGraphicsState", "InsertImage", "InsertFormObject", "DeletePages",
+               "Replace", "NewObjectId", "AddObject", "BuildOutline"}
 OpsObj     == {"NewObjectId", "AddObject", "Replace", "DeleteObject", "RemoveAnnot", "Prune", "Renumber", "BuildOutline", "Save", "SaveLoad"}
 
 NoCall == Call("none")
@@ -282,7 +304,7 @@ View == <<dev, doc, gh, n, fails, start, done, pend>>
 \* only violations are the five former findings.
 Refines == Violations(fails) \subseteq (CASE dev.mode = "asis" -> Allowed
                                           [] dev.mode = "seeded" -> Allowed \cup FormerFindings
-                                          [] OTHER -> {})
+                                          [] OTHER -> {})       \* "repaired": every confirmed deviation repaired
 
 StartOk == n = 0 => JudgeState(doc, aux, gh.content) = {} /\ aux.sound
 
